@@ -37,8 +37,11 @@ ENGINE = "Adjoint"
 DESIGN_REF = "DESIGN.md §5.1 (C01 parts)"
 TECHNIQUE = (
     "Lean 4 proof by induction over operator derivation trees (adjoint closures as scico builds them), closed-form leaf "
-    "adjoints (matrix, circular convolution, scatter/gather), basis lifting lemma; finite basis-pair obligations and "
-    "model correspondence evaluated on the real code for every class over a constructor-configuration grid"
+    "adjoints (matrix, circular convolution in the signal and in the transform domain, scatter/gather incl. the slab "
+    "loops), basis lifting lemma; a second executable model of the dtype/shape guards and declared metadata with an "
+    "induction over typed trees (adjoint never fails for a conforming input) linked to the value model; finite "
+    "basis-pair obligations and model correspondence (values and types) evaluated on the real code for every class over "
+    "a constructor-configuration grid and random typed trees"
 )
 LEVEL_TEXT = (
     "Theorems (all sizes, all vectors, trees of any depth, field with involution = R or C): every operator derived by "
@@ -47,9 +50,14 @@ LEVEL_TEXT = (
     "transpose, .conj() the entrywise conjugate, real => T = H; MatrixOperator, CircularConvolve (incl. batch-axis sum), "
     "scatter-add/gather (all index arrays) leaf adjoints; clamped gather = adjoint iff detector covers the shadow "
     "(X-ray defect recorded: negation proved + partial theorem); linear_adjoint branches given the jax.linear_transpose "
-    "contract; identity on basis pairs => identity for all vectors.  Tie: dense matrices of eval/adj of the real "
-    "operators on basis vectors for every class x configuration, views, derived forms, random derivation trees vs the "
-    "Lean model's derived adjoint."
+    "contract; identity on basis pairs => identity for all vectors.  C01_adj_total: for every typed derivation tree "
+    "accepted by scico's construction tests without a sum of operands on different dtypes (recorded finding, shown "
+    "necessary), over leaves that return their declared types, adj passes every dtype/shape guard for the conforming y "
+    "and returns the declared input type; C01_typed_tree links accepted typed trees to the value induction; "
+    "CircularConvolve._adj as coded (ifftn(conj(h_dft) fftn y)) is the adjoint for every h_dft; XRayTransform3D slab loops "
+    "= whole-volume scatter/gather.  Tie: dense matrices of eval/adj of the real operators on basis vectors for every "
+    "class x configuration, views, y @ A, derived forms, random derivation trees vs the Lean model's derived adjoint; "
+    "declared metadata, acceptance, result types and error kinds of D(x), D.adj(y) at every node of random typed trees."
 )
 LEVEL_NOTE = (
     "Classes without a closed-form Lean model (Abel, optics, projected gradients, Convolve, DFT, Pad/Crop/..., Jacobian) "
@@ -84,7 +92,10 @@ RULE = (
     "case = one operator object, evaluated on ALL real basis vectors of its input and output space; non-trivial when "
     "both spaces are non-empty and the matrix is not zero; distinct by configuration dict.  views/derived forms: "
     "operator x form; trees: random derivation trees (depth <= 3 quick / 5 thorough) over measured leaves, distinct by "
-    "(tree, leaves); malformed stream: trees with a size mismatch at one node (both sides must reject)."
+    "(tree, leaves); malformed stream: trees with a size mismatch at one node (both sides must reject); typed trees: one "
+    "case per internal node of a random typed tree (mixed dtypes, weak/strong scalars, stacks, replication; 8% of the "
+    "binary nodes with a same-size-other-shape or dtype-mismatched partner: both sides must reject), distinct by "
+    "(subtree, its leaves); spectral: CircularConvolve configurations (plain / integer / fractional centre / h_is_dft)."
 )
 ASSUMPTIONS = [
     "linearity of eval/adj of every operator (property C06) - lets the finite basis-pair check decide the identity for all vectors (theorem C01_basis)",
@@ -92,6 +103,8 @@ ASSUMPTIONS = [
     "jnp.fft.fftn/ifftn compute the DFT (CircularConvolve is modelled in the signal domain and compared numerically)",
     "jax scatter drops / gather clamps out-of-range indices (modelled; compared on every X-ray configuration)",
     "row-major flattening identifies N-d arrays and BlockArrays with vectors",
+    "ifftn is a real multiple of the conjugate transpose of fftn (hypothesis of C01_circ_dft_domain; the 1-D DFT pair is proved to satisfy it, the tie compares Op.spectral built from the object's own h_dft)",
+    "jax.dtypes.result_type under x64 for float/complex dtypes and weak Python scalars (modelled as DT.promote / SK.res; compared at every typed-tree node)",
 ]
 
 MAX_SLICE_LEN = 10  # XRayTransform3D._project / _back_project
